@@ -108,7 +108,7 @@ def trace_batches(ctx, corpus, cfg, n, batches, prop=None, also=()):
                 if kn["id"] not in [h.split(" ")[0] for h in ctx.known_hits]:
                     ctx.known_hits.append("%s %s" % (kn["id"], kn["what"]))
                 continue
-            if key in confirmed_kinds or len(ctx.violations) >= 5:
+            if key in confirmed_kinds or len(ctx.violations) >= 5 or len(getattr(ctx, "unreproduced", [])) >= 8:
                 continue
             hits, rp = confirm_sem(ctx, cfg, lines, v["prop"])
             if hits:
